@@ -1,0 +1,56 @@
+//go:build verif
+
+package proxy
+
+import (
+	"context"
+	"net"
+	"time"
+
+	"go.minekube.com/gate/pkg/edition/java/netmc"
+	"go.minekube.com/gate/pkg/edition/java/profile"
+	"go.minekube.com/gate/pkg/edition/java/proto/packet"
+	"go.minekube.com/gate/pkg/edition/java/proto/state"
+	"go.minekube.com/gate/pkg/gate/proto"
+	"go.minekube.com/gate/pkg/util/uuid"
+)
+
+// Verification hooks for property C12 (listing players/servers during joins and leaves).
+// Add-only, no logic: register fake players without network I/O and reach a server's player list.
+
+// C12Player wraps a connectedPlayer.
+type C12Player struct{ p *connectedPlayer }
+
+// C12NewPlayer builds a connectedPlayer over raw (real netmc connection, read loop not started) whose
+// active session handler's Disconnected() runs teardown, as for a logged-in player.
+func C12NewPlayer(px *Proxy, raw net.Conn, name string, id uuid.UUID) *C12Player {
+	cfg := px.config()
+	conn, _ := netmc.NewMinecraftConn(context.Background(), raw, proto.ServerBound,
+		time.Duration(cfg.ReadTimeout)*time.Millisecond,
+		time.Duration(cfg.ConnectionTimeout)*time.Millisecond,
+		cfg.Compression.Level, nil)
+	deps := &sessionHandlerDeps{
+		proxy:          px,
+		registrar:      px,
+		configProvider: px,
+		eventMgr:       px.event,
+		authenticator:  px.authenticator,
+		loginsQuota:    px.loginsQuota,
+	}
+	prof := &profile.GameProfile{ID: id, Name: name}
+	vhost := &net.TCPAddr{IP: net.IPv4(127, 0, 0, 1), Port: 25565}
+	p := newConnectedPlayer(conn, prof, vhost, packet.LoginHandshakeIntent, false, nil, deps)
+	conn.SetActiveSessionHandler(state.Play, newInitialConnectSessionHandler(p))
+	return &C12Player{p: p}
+}
+
+// Player returns the wrapped player as the public interface value.
+func (c *C12Player) Player() Player { return c.p }
+
+// C12Join forwards to Proxy.registerConnection.
+func C12Join(px *Proxy, c *C12Player) bool { return px.registerConnection(c.p) }
+
+// C12ServerAdd / C12ServerRemove forward to the server's players.add / players.remove
+// (what the backend play session handler calls when a player joins / leaves the server).
+func C12ServerAdd(rs RegisteredServer, c *C12Player)    { rs.(*registeredServer).players.add(c.p) }
+func C12ServerRemove(rs RegisteredServer, c *C12Player) { rs.(*registeredServer).players.remove(c.p) }
